@@ -81,6 +81,9 @@ func (c *FnCtx) eval(env *SpecEnv, e *Expr) (Val, error) {
 		o.frame, o.at, o.loop = env.frame, env.at, env.loop
 		return c.eval(o, e.Args[0])
 	case "un":
+		if e.Name == "*" {
+			return Val{}, fmt.Errorf("pointer type %s used as a value", e)
+		}
 		x, err := c.eval(env, e.Args[0])
 		if err != nil {
 			return Val{}, err
